@@ -255,6 +255,31 @@ def check_batch(pid, scs, res, names, do_count=True):
             })
 
 
+def probe_parked_raising_reply(res):
+    """Directed replay of the recorded finding `parked-raising-reply-stalls-consumer` (known_findings.json) on the real
+    Consumer: a fetch reply whose iteration raises, parked behind a pending processor result, leaves the consumer with
+    nothing outstanding, nothing scheduled and start()'s Deferred unfired.  Present -> a monitor failure carrying that
+    tag (KNOWN-FINDING line); repaired -> nothing.  Any OTHER stall is still for the liveness monitors to report."""
+    p = os.path.join(CORPUS, "p02-parked-raising-reply-stalls.json")
+    if not os.path.exists(p):
+        return
+    sc = json.load(open(p))
+    sc = dict(sc, events=sc["events"] + ["retryFire"], profile="corpus:known-finding-probe")
+    impl = CC.run_impl(sc)
+    res.count("known-finding-probe:parked-raising-reply")
+    i = sc["events"].index("procDone ok")
+    after = [o for obs in impl[i:] for o in obs]
+    fired = any(o.startswith("startFired") for obs in impl for o in obs)
+    active = any(o.split()[0] in ("fetch", "setTimer", "offsets", "offsetFetch") for o in after)
+    if not fired and not active and impl[-1] == ["bad-op"]:
+        res.monitor_failures.append({
+            "what": "after a parked fetch reply whose iteration raised, the consumer has no request outstanding, no timer "
+                    "scheduled and start()'s Deferred has not fired (the consumer is stuck for good)",
+            "scenario": sc, "impl": impl, "monitor": "c02-stall-probe",
+            "tags": ["c02-stall-probe", "parked-raising-reply-stalls-consumer"],
+        })
+
+
 def load_corpus():
     out = []
     for p in sorted(glob.glob(os.path.join(CORPUS, "*.json"))):
@@ -334,6 +359,8 @@ def run(ctx, res, pid):
     scs = [(sc, CC.run_impl(sc)) for sc in corpus]
     check_batch(pid, scs, res, names)
     res.extra["corpus_scenarios"] = len(corpus)
+    if pid == "C02":
+        probe_parked_raising_reply(res)
     # 2. random scenarios
     t0 = time.time()
     if thorough:
